@@ -73,6 +73,7 @@ def showSymbol (s : Symbol) : String :=
 
 def showEncErr : EncErr → String
   | .badScript => "ERR:badscript" | .badLayers => "ERR:badlayers" | .tooLong => "ERR:toolong"
+  | .internal => "ERR:internal"
 
 def parseOpsArg? (arg : String) : Option (List Op) :=
   if arg.startsWith "t:" then (parseHex? (arg.drop 2).toString).map greedy
